@@ -1,0 +1,21 @@
+//go:build verif
+
+package types
+
+import "bytes"
+
+// VerifSetProposer sets the cached proposer of a validator set (build tag
+// "verif" only). The simulation harness uses it to explore behaviour beyond a
+// recorded finding about the proposer cache not surviving persistence.
+func (valSet *ValidatorSet) VerifSetProposer(addr []byte) bool {
+	for _, v := range valSet.Validators {
+		if bytes.Equal(v.Address, addr) {
+			valSet.proposer = v
+			return true
+		}
+	}
+	return false
+}
+
+// VerifProposerCached reports whether the proposer is cached or would be recomputed.
+func (valSet *ValidatorSet) VerifProposerCached() bool { return valSet.proposer != nil }
